@@ -1465,6 +1465,12 @@ def _list_append(it, l, v):
 
 
 def _list_extend(it, l, other):
+    if isinstance(other, SymList) and other.prefix is not None:
+        # extending with a list of unknown contents: recorded as an effect; the target's contents become unknown
+        it.emit(Ev('Call', target=l, method='extend', args=(), kwargs={}, result=None, objs=(other,)))
+        if isinstance(l, SymList):
+            l.items.append(Opaque('listelem', 'extended'))
+        return None
     kind, items = iterate(it, other)
     if kind != 'concrete':
         raise Unsupported('extend with symbolic iterable')
